@@ -1,6 +1,6 @@
 """C14 - page checksums are IEEE CRC-32 and page damage is always detected.
 
-Proof: coq/theories/Props/Properties_C14.v (5 theorems; model Util/Crc32Model.v, spec Util/Crc32Spec.v).
+Proof: coq/theories/Props/Properties_C14.v (8 theorems; model Util/Crc32Model.v, spec Util/Crc32Spec.v).
 Tie:   (a) CRC32_POLY regenerated from src/util/crc32.c; (b) carquet_crc32/_update vs extracted model vs
        extracted bit-serial spec vs zlib crc32() on every length 0..N x alignments x random splits;
        file level: every bit of every page body of generated files x {fread, mmap, buffer} must be
@@ -39,6 +39,18 @@ def gen_cases(tier, rng):
         data = bytes(rng.getrandbits(8) for _ in range(n))
         k = rng.choice([0, n, min(n, 8), max(0, n - 8)]) if rng.random() < 0.3 else rng.randrange(0, n + 1)
         cases.append(("crcupd", k, data))
+    # any chunking (crc_update_any_chunking): 0..6 cuts, equal cuts give empty pieces, pieces around the 8-byte
+    # main-loop group size, everything through carquet_crc32_update from state 0
+    nchain = 2500 if tier == "thorough" else 500
+    for _ in range(nchain):
+        n = rng.choice([0, 1, 7, 8, 9, 16, 17, 24, 64]) if rng.random() < 0.25 else rng.randrange(0, 400)
+        data = bytes(rng.getrandbits(8) for _ in range(n))
+        ncut = rng.randrange(0, 7)
+        if rng.random() < 0.3:
+            cuts = sorted(rng.choice([0, n, min(n, 8), min(n, 7), min(n, 9), max(0, n - 8), max(0, n - 1)]) for _ in range(ncut))
+        else:
+            cuts = sorted(rng.randrange(0, n + 1) for _ in range(ncut))
+        cases.append(("crcchain", ",".join(map(str, cuts)) if cuts else "-", data))
     return cases
 
 
@@ -55,7 +67,7 @@ def check_pure(rep, tier, rng, drv, run):
         rep.violation(f"implementation driver died (rc={pr[1]}): {pr[2][-600:]}", {"case": pr[3]}, key=None)
     for pr in p2:
         rep.tie_broken(f"model runner died (rc={pr[1]}): {pr[2][-300:]}", pr[3])
-    dist = {"crc": 0, "crcupd": 0}
+    dist = {"crc": 0, "crcupd": 0, "crcchain": 0}
     for c, li, a, b in zip(cases, lines, impl, model):
         rep.count(li, nontrivial=len(c[2]) > 0)
         dist[c[0]] += 1
@@ -68,6 +80,14 @@ def check_pure(rep, tier, rng, drv, run):
                 rep.tie_broken(f"extracted model and extracted bit-serial specification differ: {b}", li)
             elif at[:2] != bt[:2]:
                 rep.tie_broken(f"Crc32Model.crc32 differs from carquet_crc32: model {b} / impl {a}", li)
+        elif c[0] == "crcchain":
+            import zlib
+            want = "%x" % (zlib.crc32(c[2]) & 0xFFFFFFFF)
+            if at != ["OK", want]:
+                rep.violation(f"carquet_crc32_update over the pieces cut at [{c[1]}] != CRC-32 of the whole {len(c[2])}-byte buffer: got {a}, want {want}",
+                              {"case": li, "impl": a})
+            if bt != ["OK", want]:
+                rep.tie_broken(f"model update chain differs: {b} want {want}", li)
         else:
             # compose law on the implementation: update(crc(a), b) must equal the one-shot CRC of the
             # whole (computed here with zlib through python)
@@ -176,4 +196,10 @@ def replay(path):
         print(err[-2000:])
     t = out[0].split() if out else []
     bad = rc != 0 or not t or t[0] != "OK" or (len(t) == 3 and t[1] != t[2]) or (len(t) == 4 and not (t[1] == t[2] == t[3]))
+    ct = case.split()
+    if ct[0] in ("crcupd", "crcchain") and len(ct) in (2, 3):
+        import zlib
+        want = "%x" % (zlib.crc32(bytes.fromhex(ct[2]) if len(ct) == 3 else b"") & 0xFFFFFFFF)
+        print("IEEE CRC-32 of the whole buffer (zlib):", want)
+        bad = bad or t != ["OK", want]
     return 1 if bad else 0
